@@ -36,6 +36,7 @@ type SeqViolation struct {
 
 // seqCtx is handed to a check.
 type seqCtx struct {
+	polls    int64
 	out      *SeqOut
 	shard    int
 	nshards  int
@@ -96,7 +97,8 @@ func (c *seqCtx) Fail(prop, desc, input string) {
 }
 
 func (c *seqCtx) Stopped() bool {
-	if !c.stop && !c.until.IsZero() && c.out.Evaluations%1024 == 0 && time.Now().After(c.until) {
+	c.polls++
+	if !c.stop && !c.until.IsZero() && c.polls%64 == 0 && time.Now().After(c.until) {
 		c.stop = true
 		c.out.Exhaustive = false
 	}
